@@ -78,7 +78,9 @@ def handle (st : St) (n : Nat) (line : String) : Result := Id.run do
   | "BINM" :: rest =>
     let g := field rest
     let st := st.bump "binary.metrics-page"
-    if (g "page_attempts").getD "?" == "-1" then
+    if (g "unanswered").getD "0" != "0" then
+      return { st := { (st.bump "binary.metrics-page.not-judged") with nOK := st.nOK + 1 }, out := [s!"OK {n}"] }
+    else if (g "page_attempts").getD "?" == "-1" then
       return fail st n "C20" "production binary: the /metrics page configured with --metrics_listen cannot be read"
     else if (g "attempts").getD "a" != (g "page_attempts").getD "b" || (g "successes").getD "a" != (g "page_successes").getD "b" then
       return fail st n "C20" s!"production binary: its /metrics page shows {(g "page_attempts").getD "?"} update requests and {(g "page_successes").getD "?"} successes for a log for which {(g "attempts").getD "?"} requests reached Update and {(g "successes").getD "?"} were answered 200"
